@@ -9,7 +9,7 @@
 From Coq Require Import List NArith ZArith Bool Sorted Permutation.
 Import ListNotations.
 From SV Require Fmt.CmdSeq Fmt.CmdSeqProofs Fmt.ScenesImage Fmt.ScenesImageProofs Fmt.ScenesImageCfg Fmt.ScenesImageCfgProofs
-  Fmt.SmdTpl Fmt.SmdTplProofs Fmt.SmdWords Fmt.TextFields Fmt.TextFieldsProofs Fmt.SndStacks Fmt.SndStacksProofs Fmt.VmtQuote Fmt.VmtQuoteProofs Fmt.TextLines Fmt.TextLinesProofs Fmt.ChoreoBin Fmt.ChoreoBinProofs Fmt.SceneSummary Fmt.BspDedup Fmt.C20KeyTables Fmt.C20KeyTablesProofs Fmt.SmdNumber Fmt.SmdNumberProofs KV.KvBase KV.KvLex KV.KvSym KV.KvLexProofs.
+  Fmt.SmdTpl Fmt.SmdTplProofs Fmt.SmdWords Fmt.TextFields Fmt.TextFieldsProofs Fmt.SndStacks Fmt.SndStacksProofs Fmt.VmtQuote Fmt.VmtQuoteProofs Fmt.TextLines Fmt.TextLinesProofs Fmt.ChoreoBin Fmt.ChoreoBinProofs Fmt.SceneSummary Fmt.BspDedup Fmt.C20KeyTables Fmt.C20KeyTablesProofs Fmt.SmdNumber Fmt.SmdNumberProofs Fmt.ChoreoQuant KV.KvBase KV.KvLex KV.KvSym KV.KvLexProofs.
 
 (** * Command sequences *)
 Module CS := Fmt.CmdSeq.
@@ -510,3 +510,31 @@ Theorem c20_smd_equal_keys_merge_refuted :
   Some [(0%nat, 0%N, None); (1%nat, 1%N, Some 0%nat); (2%nat, 3%N, Some 1%nat)] /\
   ~ NoDup (map SN.bkey [SN.mkBone 0 None; SN.mkBone 1 (Some 0%N); SN.mkBone 1 (Some 0%N); SN.mkBone 3 (Some 1%N)]).
 Proof. exact SNP.number_equal_keys_merge_refuted. Qed.
+
+(** * Quantised fields of binary choreo scenes (round 4): [min(MAX, max(0, round(value * FACTOR)))] written, [field / FACTOR] read,
+    on the kernel's binary64 floats (Fmt/ChoreoQuant.v; sites regenerated from choreo.py in Gen/QuantSites_gen.v).  The stored
+    values form a finite domain: every one of them is checked in the kernel. *)
+Module CQ := Fmt.ChoreoQuant.
+From Coq Require Import Floats.
+
+(** for every site passing the enumeration: each field value 0..MAX is read as a float that is written back as that field *)
+Theorem c20_choreo_quantised_field_stable : forall s, CQ.all_stable s = true ->
+  forall k, (0 <= k <= CQ.q_max s)%Z -> CQ.quant s (CQ.dequant s k) = Some k.
+Proof. exact CQ.quant_dequant. Qed.
+
+(** ... and read again as the same float (second generation identical) *)
+Theorem c20_choreo_quantised_value_second_generation : forall s, CQ.all_stable s = true ->
+  forall k, (0 <= k <= CQ.q_max s)%Z -> option_map (CQ.dequant s) (CQ.quant s (CQ.dequant s k)) = Some (CQ.dequant s k).
+Proof. exact CQ.dequant_second_generation. Qed.
+
+(** the two sites of the pinned tree: factor 255 into a byte (all 256 values), factor 4096 into 16 bits (all 65536 values) *)
+Theorem c20_choreo_byte_fields_stable : CQ.all_stable CQ.site_byte = true.
+Proof. exact CQ.byte_sites_stable. Qed.
+Theorem c20_choreo_absolute_tag_fields_stable : CQ.all_stable CQ.site_abs = true.
+Proof. exact CQ.abs_sites_stable. Qed.
+
+(** a reader dividing by 256 where the writer multiplies by 255: field 200 comes back as 199 *)
+Theorem c20_choreo_quantisation_factor_mismatch_refuted :
+  CQ.all_stable (CQ.mkQ CQ.QRound 255%float true 255 256%float) = false /\
+  CQ.quant (CQ.mkQ CQ.QRound 255%float true 255 256%float) (CQ.dequant (CQ.mkQ CQ.QRound 255%float true 255 256%float) 200) = Some 199%Z.
+Proof. exact CQ.quant_factor_mismatch_refuted. Qed.
